@@ -1,6 +1,6 @@
 use std::{
     fs,
-    io::{self, Write},
+    io::{self, Seek, SeekFrom, Write},
     path::Path,
 };
 
@@ -8,10 +8,7 @@ use bytes::Buf;
 use lru::LruCache;
 use serde::{de::DeserializeOwned, Serialize};
 
-use super::{
-    bufio::{BufReaderWithPos, BufWriterWithPos},
-    utils,
-};
+use super::{bufio::BufReaderWithPos, utils};
 
 /// Position and length of an log entry within a log file.
 #[derive(Debug, PartialEq, Eq)]
@@ -124,13 +121,16 @@ impl LogDir {
 
 /// An append-only file writer that serializes data using `bincode`.
 #[derive(Debug)]
-pub struct LogWriter(BufWriterWithPos<fs::File>);
+pub struct LogWriter {
+    file: fs::File,
+    pos: u64,
+}
 
 impl LogWriter {
     /// Create a new log writer for writing entries to the given file.
-    pub fn new(file: fs::File) -> io::Result<Self> {
-        let writer = BufWriterWithPos::new(file)?;
-        Ok(Self(writer))
+    pub fn new(mut file: fs::File) -> io::Result<Self> {
+        let pos = file.seek(SeekFrom::End(0))?;
+        Ok(Self { file, pos })
     }
 
     /// Serialize the given entry at EOF and ensure to flush all data to the I/O device.
@@ -138,18 +138,23 @@ impl LogWriter {
     where
         T: Serialize,
     {
-        let pos = self.0.pos();
+        // The entry is handed to the file in one piece. If that fails, no part of it may be left
+        // in a buffer, otherwise it would reach the file together with a later entry even though
+        // the caller was told that the write failed.
+        let buf = bincode::serialize(entry)?;
+        self.file.write_all(&buf)?;
 
-        bincode::serialize_into(&mut self.0, entry)?;
-        self.0.flush()?;
-
-        let len = self.0.pos() - pos;
-        Ok(LogIndex { len, pos })
+        let index = LogIndex {
+            len: buf.len() as u64,
+            pos: self.pos,
+        };
+        self.pos += index.len;
+        Ok(index)
     }
 
     /// Synchronize all data to disk.
     pub fn sync(&mut self) -> io::Result<()> {
-        self.0.get_ref().sync_all()
+        self.file.sync_all()
     }
 }
 
